@@ -36,7 +36,8 @@ Layouts ==
     r2 |-> [codes |-> {201, 400},      default |-> FALSE],
     r3 |-> [codes |-> {},              default |-> TRUE],
     r4 |-> [codes |-> {204},           default |-> FALSE],
-    r5 |-> [codes |-> {404},           default |-> FALSE] ]      \* only an error response is declared
+    r5 |-> [codes |-> {404},           default |-> FALSE],       \* only an error response is declared
+    r6 |-> [codes |-> {200, 300},      default |-> FALSE] ]      \* a declared code just outside the success class
 ScriptCodes(L) == Layouts[L].codes \cup {299, 302, 418, 500}
 
 IsSuccess(code) == code >= 200 /\ code <= 299
@@ -62,7 +63,8 @@ RespSpec ==
     r2 |-> [r201 |-> [description |-> "created"], r400 |-> [description |-> "bad", schema |-> [type |-> "string"]]],
     r3 |-> [default |-> [description |-> "any", schema |-> ObjSchema]],
     r4 |-> [r204 |-> [description |-> "nc"]],
-    r5 |-> [r404 |-> [description |-> "nf", schema |-> MsgSchema]] ]
+    r5 |-> [r404 |-> [description |-> "nf", schema |-> MsgSchema]],
+    r6 |-> [r200 |-> [description |-> "ok", schema |-> ObjSchema], r300 |-> [description |-> "choices", schema |-> MsgSchema]] ]
 
 ObjPayload == Obj([a |-> Str("ab"), n |-> Num(6)])
 MsgPayload == Obj([msg |-> Str("abc")])
@@ -73,6 +75,8 @@ PayloadOf(L, code) ==
     [] L = "r2" /\ code = 400 -> Str("abc")
     [] L = "r3" -> ObjPayload                                        \* default
     [] L = "r5" /\ code = 404 -> MsgPayload
+    [] L = "r6" /\ code = 200 -> ObjPayload
+    [] L = "r6" /\ code = 300 -> MsgPayload
     [] OTHER -> Null
 HeadersOf(L, code) ==
   IF L = "r1" /\ code = 200
